@@ -37,7 +37,7 @@ def bounds(tier):
             "installed": dict(cap=12, cap_slow=3, cap_mixed=2, cap_slow_mixed=0, cap_harvest=3),
         }
     return {
-        "generated": dict(cap=45, cap_slow=10, cap_mixed=6, cap_slow_mixed=2, cap_harvest=8),
+        "generated": dict(cap=36, cap_slow=10, cap_mixed=5, cap_slow_mixed=2, cap_harvest=8),
         "installed": dict(cap=27, cap_slow=5, cap_mixed=4, cap_slow_mixed=0, cap_harvest=4),
     }
 
@@ -251,7 +251,9 @@ def run(tier, seed):
             "classes: Prim(Optional int/bool/str/float), Scal(int,str), Scal2(bool,float), Lst(List[int], Optional[List[int]]), "
             "Sets(Set[int], Optional[Set[int]]), Nest(M, Optional[M], List[M]), Rec(recursive), Chain(Optional[M] + Optional[List[M]] holding "
             "M<-M2<-M3), Sib(Optional[M] holding M, M2 and the unrelated sibling MX; associativity not claimed there), "
-            "each as plain BaseModel (PartialFactory) and as MetadataSchema (Schema.Partial). Per class the full cross "
+            "each as plain BaseModel (PartialFactory) and as MetadataSchema (Schema.Partial); plus field subsets of the "
+            "installed schemas core.file (FileOpt: contentSize, alternateName, keywords, copyrightYear; FileReq: the four "
+            "mandatory fields) and core.imagefile (Image: width/height as nested Pixels, contentSize). Per class the full cross "
             "product of the per-field corpora in `classes[..].corpus_sizes` (priority ordered: missing, falsy, truthy...; "
             "shrunk from the end of the longest corpus until <= cap; never sampled). Every instance in every applicable "
             "construction mode (complete-object modes need all required fields; dict/JSON/YAML/harvester modes need nested "
@@ -261,7 +263,10 @@ def run(tier, seed):
             "three operands in the same mode, for every mode (YAML/harvester over cap_slow); (4) ALL triples x ALL mode "
             "combinations over the cap_mixed space (with slow modes: cap_slow_mixed); (5) harvest() over ALL ordered "
             "triples of the cap_harvest space x {3 harvesters, 3 YAML files, file-harvester-file}. "
-            "A case = fresh operands built from the spec + all laws. distinct_nontrivial = number of DISTINCT "
+            "A case = fresh operands built from its spec, executed through merge_with / merge (with the flag and, for "
+            "no-overwrite, also without it) + all laws: identity, result = reference merge, associativity (only where the "
+            "classes at each nested position form a chain), merge() = fold of merge_with, operands unchanged (deep "
+            "snapshot incl. object identities), construction keeps values, complete->partial->complete. distinct_nontrivial = number of DISTINCT "
             "(factory, class, x, y, z) spec triples with at least two non-empty operands that were merged in at least one "
             "mode (bitmap union over all passes, so a triple met in several modes counts once)."
         ),
